@@ -328,7 +328,9 @@ func (r *runner) oracle() {
 				}
 				r.fail(cls, fmt.Sprintf("%s: %s answered by config %s; only %q may", where, name, x, allowed))
 			case mustServe && x == ansReset && !isUnix(a) && ev.win:
-				r.fail("tcp-connection-reset-while-listener-closes", fmt.Sprintf("%s: connection to retained address %s was reset while the replaced config's listener on it was being closed", where, name))
+				// the connect overlapped the close of the replaced config's SO_REUSEPORT socket and
+				// had been queued there by the kernel: not a lifecycle step's doing (props.d: runtime)
+				r.resetsSeen++
 			case mustServe && !served:
 				r.fail("retained-address-not-served", fmt.Sprintf("%s: connection to %s, which config %d holds and its successor keeps: %q", where, name, old, x))
 			case takeover && !inOld && inCand && candStarted[cand] && !served:
@@ -465,14 +467,6 @@ func (r *runner) tags() []string {
 	}
 	sort.Strings(out)
 	return out
-}
-
-// Failure classes the unchanged upstream tree exhibits (see known_findings.jsonl); the
-// model mirrors them, so they do not make the verdict differ from the model's.
-var upstreamClasses = map[string]bool{
-	"dropped-unix-socket-still-accepting":        true,
-	"unix-reuse-of-closed-listener":              true,
-	"tcp-connection-reset-while-listener-closes": true,
 }
 
 // ---- generator
@@ -682,14 +676,15 @@ func (p *prop) runScenario(sc scenario) (core.Outcome, string) {
 		fmt.Fprintf(os.Stderr, "traffic ok=%d refused=%d reset=%d broken=%d stale=%d fails %v\n", r.traffic.ok, r.traffic.refused, r.traffic.reset, r.traffic.broken, r.traffic.stale, r.fails)
 	}
 	verdict := "accept"
-	for _, f := range r.fails {
-		if !upstreamClasses[f.Class] {
-			verdict = "oracle-fail"
-		}
+	if len(r.fails) > 0 {
+		verdict = "oracle-fail"
 	}
 	tags := r.tags()
 	if r.traffic.ok > 0 {
 		tags = append(tags, "background-traffic")
+	}
+	if r.traffic.reset+r.resetsSeen > 0 {
+		tags = append(tags, "tcp-connection-reset-while-old-listener-closes")
 	}
 	// a failure is replayed from the scenario alone (the trace is re-observed)
 	for i := range r.fails {
